@@ -20,6 +20,7 @@ EXPLANATION = (
     "identifiers. From I1-I5: ids are 0..n-1 without gaps or repeats, each call site's id has exactly one case "
     "which calls the routine generated from the same entry. That the routine's *body* is right is C06/C11.")
 EXPLANATION += (
+    ' I7: generate_content writes every entry on every path (a helper that may return without writing - e.g. when a file of the same size exists - is not a write): ids of .m files and case labels come from the same run.'
     ' I1 (as built): the counter and the dispatch map are written by the allocator only, apart from joint unconditional resets (counter := 0 together with map := {}), one of which the constructor performs. I6 additionally requires the accessor prefix tested by generate_collector_function to be spelt from the same tuple slots as the routine name registered by wrap_class_properties.')
 ASSUMPTIONS = [
     "the abstract execution models exactly the statement forms the two loops use (assign, if, continue, "
@@ -36,4 +37,6 @@ def run(ctx, rep):
     rep.run(RI.rule_roles, ctx, rep, "I6")
     # I3 (consumer side): all overloads of a name share one .m file, so no id loses its call site by overwriting
     rep.run(RM.rule_group_by_name, ctx, rep, "I3")
+    # I7: call sites and dispatch table come from one run: every file is written whatever the output folder already holds
+    rep.run(RI.rule_one_run_writes_every_file, ctx, rep, "I7")
     rep.run(RF.rule_locals_defined, ctx, rep, "U1", packages=("gtwrap/matlab_wrapper",), min_functions=3)
